@@ -231,6 +231,17 @@ class SymText:
     def __hash__(self):
         raise HarnessError("harness: SymText is not hashable")
 
+    def split(self, *a, **k):
+        # exact (delegates to str on the composed text); only cheap when the
+        # text is short -- used by nobody on the unchanged tree
+        return self.plain().split(*a, **k)
+
+    def splitlines(self, *a, **k):
+        return self.plain().splitlines(*a, **k)
+
+    def replace(self, *a, **k):
+        return self.plain().replace(*a, **k)
+
     def __getattr__(self, name):
         raise HarnessError(f"harness: SymText.{name} is not modelled")
 
